@@ -40,10 +40,13 @@ def make_schema(tmp):
         other = [o for o in NS if o != k][0]
         with open(os.path.join(tmp, k + '.xsd'), 'w') as f:
             f.write('<xs:schema xmlns:xs="%s" targetNamespace="%s" elementFormDefault="qualified"><xs:import '
-                    'namespace="%s" schemaLocation="%s.xsd"/><xs:element name="n"><xs:complexType><xs:sequence>'
+                    'namespace="%s" schemaLocation="%s.xsd"/><xs:import schemaLocation="v.xsd"/><xs:element name="n"><xs:complexType><xs:sequence>'
                     '<xs:any minOccurs="0" maxOccurs="unbounded" processContents="strict"/></xs:sequence>'
                     '<xs:anyAttribute processContents="lax"/></xs:complexType></xs:element><xs:attribute name="at" '
                     'type="xs:string"/></xs:schema>' % (XS, uri, NS[other], other))
+    with open(os.path.join(tmp, 'v.xsd'), 'w') as f:
+        # a leaf element in NO namespace (admitted by the wildcards): under a default namespace it needs xmlns=""
+        f.write('<xs:schema xmlns:xs="%s"><xs:element name="v" type="xs:string"/></xs:schema>' % XS)
     return xmlschema.XMLSchema10(os.path.join(tmp, 't.xsd'))
 
 
@@ -76,6 +79,13 @@ def gen(rnd, depth, scope):
     kids, kx = [], ''
     if depth > 0:
         for _ in range(rnd.randint(0, 3)):
+            if rnd.random() < 0.15:
+                # no-namespace leaf: unsets the default namespace on itself when one is in scope
+                un = ' xmlns=""' if sc.get('') else ''
+                kids.append(('', [], [], bool(un), 'v'))
+                kx += '<v%s>text</v>' % un
+                interesting = interesting or bool(un)
+                continue
             x, t = gen(rnd, depth - 1, sc)
             kids.append(t)
             kx += x
@@ -105,10 +115,12 @@ def check_jsonml(data, tree, sc, out, path='/'):
             sc[''] = v
         elif k.startswith('xmlns:'):
             sc[k[6:]] = v
-    u, tattrs, kids, _ = tree
+    u, tattrs, kids = tree[:3]
+    local = tree[4] if len(tree) > 4 else 'n'
+    rest = [x for x in rest if isinstance(x, list)]      # text content of leaves is not a child
     got = resolve(tag, sc, False)
-    if got != (u, 'n'):
-        out.append(('element', path, tag, got, (u, 'n')))
+    if got != (u, local):
+        out.append(('element', path, tag, got, (u, local)))
     gotattrs = sorted(resolve(k, sc, True) for k in attrs if not k.startswith('xmlns'))
     if gotattrs != sorted(tattrs):
         out.append(('attribute', path, [k for k in attrs if not k.startswith('xmlns')], gotattrs, sorted(tattrs)))
@@ -122,9 +134,10 @@ def check_jsonml(data, tree, sc, out, path='/'):
 def check_dataelement(de, tree, out, path='/'):
     """DataElement: tags are expanded names already; attribute keys mapped with the node's nsmap."""
     from xmlschema.utils.qnames import get_namespace, local_name
-    u, tattrs, kids, _ = tree
-    if (get_namespace(de.tag), local_name(de.tag)) != (u, 'n'):
-        out.append(('element', path, de.tag, None, (u, 'n')))
+    u, tattrs, kids = tree[:3]
+    local = tree[4] if len(tree) > 4 else 'n'
+    if (get_namespace(de.tag), local_name(de.tag)) != (u, local):
+        out.append(('element', path, de.tag, None, (u, local)))
     if len(de) != len(kids):
         out.append(('shape', path, len(de), len(kids)))
         return
@@ -133,12 +146,53 @@ def check_dataelement(de, tree, out, path='/'):
 
 
 def tree_tags(t):
-    return (t[0], sorted(t[1]), [tree_tags(k) for k in t[2]])
+    return (t[0], t[4] if len(t) > 4 else 'n', sorted(t[1]), [tree_tags(k) for k in t[2]])
 
 
 def et_tags(e):
-    from xmlschema.utils.qnames import get_namespace
-    return (get_namespace(e.tag), sorted((get_namespace(k), 'at') for k in e.attrib), [et_tags(c) for c in e])
+    from xmlschema.utils.qnames import get_namespace, local_name
+    return (get_namespace(e.tag), local_name(e.tag), sorted((get_namespace(k), 'at') for k in e.attrib),
+            [et_tags(c) for c in e])
+
+
+def names_canon(t):
+    return ((t[0], t[4] if len(t) > 4 else 'n'), sorted(names_canon(k) for k in t[2]))
+
+
+def dict_canon(data, name, sc):
+    """Default converter, stacked mode: expanded names of the decoded keys, each resolved with the declarations the
+    data reports for the node and its ancestors (order-free, attributes ignored)."""
+    sc = dict(sc)
+    kids = []
+    if isinstance(data, dict):
+        for k, v in data.items():
+            if k == '@xmlns':
+                sc[''] = v
+            elif k.startswith('@xmlns:'):
+                sc[k[7:]] = v
+        for k, v in data.items():
+            if k.startswith('@') or k == '$':
+                continue
+            for item in (v if isinstance(v, list) else [v]):
+                csc = dict(sc)
+                if isinstance(item, dict):
+                    for kk, vv in item.items():
+                        if kk == '@xmlns':
+                            csc[''] = vv
+                        elif kk.startswith('@xmlns:'):
+                            csc[kk[7:]] = vv
+                kids.append(dict_canon(item, resolve(k, csc, False), sc))
+    return (name, sorted(kids))
+
+
+def has_undeclared_default(xml):
+    """input-only predicate: an element in no namespace (v) and a default-namespace declaration (set or unset)
+    occur in the same document."""
+    return '<v' in xml and 'xmlns="' in xml
+
+
+def has_siblings(t):
+    return len(t[2]) > 1 or any(has_siblings(k) for k in t[2])
 
 
 def classes_of(outs):
@@ -172,30 +226,39 @@ def judge_doc(s, xml, tree, st):
             continue
         bad = []
         check_jsonml(data, tree, {}, bad)
+        ucl = ['undeclared-default-namespace'] if has_undeclared_default(xml) else []
         if bad:
-            out.append(rec('decoded_key_resolves_wrongly', mode, 'JsonML', str(bad[0][4]), str(bad[0][:4]), classes_of(bad)))
+            out.append(rec('decoded_key_resolves_wrongly', mode, 'JsonML', str(bad[0][4]), str(bad[0][:4]),
+                           classes_of(bad) + (ucl if mode != 'stacked' else [])))
         try:
             el = s.encode(data, converter=xmlschema.JsonMLConverter, xmlns_processing=mode, path='{%s}n' % tree[0])
             if et_tags(el) != tree_tags(tree):
-                cl = classes_of(bad) if bad else []
+                cl = (classes_of(bad) if bad else []) + ucl
                 out.append(rec('encode_changes_names', mode, 'JsonML', str(tree_tags(tree))[:200], str(et_tags(el))[:200], cl))
         except Exception as e:
             out.append(rec('encode_raises', mode, 'JsonML', 'element', type(e).__name__ + ': ' + str(e)[:100],
-                           classes_of(bad) if bad else []))
+                           (classes_of(bad) if bad else []) + ucl))
     # dictionary converters: round trip of expanded names (keys collide when siblings differ only by binding)
     for name, conv in (('default', xmlschema.XMLSchemaConverter), ('BadgerFish', xmlschema.BadgerFishConverter)):
         st.case()
-        tags = [k[0] for k in tree[2]]
+        # sibling keys can collide as text only where an element has >= 2 children: chains are asserted
+        dcl = ['dict-converter-names'] if has_siblings(tree) else []
+        if has_undeclared_default(xml):
+            dcl.append('undeclared-default-namespace')
         try:
             data = s.decode(xml, converter=conv, xmlns_processing='stacked')
+            if name == 'default':
+                got = dict_canon(data, (tree[0], 'n'), {})
+                if got != names_canon(tree):
+                    out.append(rec('decoded_key_resolves_wrongly', 'stacked', 'default', str(names_canon(tree))[:200],
+                                   str(got)[:200], []))
             el = s.encode(data, converter=conv, xmlns_processing='stacked', path='{%s}n' % tree[0])
             el = el[0] if isinstance(el, tuple) else el
             if el is None or sorted_tags(el) != sorted_tree(tree):
                 out.append(rec('dict_roundtrip_changes_names', 'stacked', name, str(sorted_tree(tree))[:200],
-                               str(sorted_tags(el))[:200] if el is not None else None, ['dict-converter-names']))
+                               str(sorted_tags(el))[:200] if el is not None else None, dcl))
         except Exception as e:
-            out.append(rec('dict_roundtrip_raises', 'stacked', name, 'element', type(e).__name__ + ': ' + str(e)[:100],
-                           ['dict-converter-names']))
+            out.append(rec('dict_roundtrip_raises', 'stacked', name, 'element', type(e).__name__ + ': ' + str(e)[:100], dcl))
     st.case()
     de = s.to_objects(xml)
     bad = []
@@ -206,12 +269,12 @@ def judge_doc(s, xml, tree, st):
 
 
 def sorted_tree(t):
-    return (t[0], sorted(t[1]), sorted((sorted_tree(k) for k in t[2]), key=str))
+    return (t[0], t[4] if len(t) > 4 else 'n', sorted(t[1]), sorted((sorted_tree(k) for k in t[2]), key=str))
 
 
 def sorted_tags(e):
-    from xmlschema.utils.qnames import get_namespace
-    return (get_namespace(e.tag), sorted((get_namespace(k), 'at') for k in e.attrib),
+    from xmlschema.utils.qnames import get_namespace, local_name
+    return (get_namespace(e.tag), local_name(e.tag), sorted((get_namespace(k), 'at') for k in e.attrib),
             sorted((sorted_tags(c) for c in e), key=str))
 
 
@@ -272,7 +335,8 @@ def parse_tree(xml):
     from xmlschema.utils.qnames import get_namespace, local_name
 
     def conv(e):
-        return (get_namespace(e.tag), [(get_namespace(k), local_name(k)) for k in e.attrib], [conv(c) for c in e], True)
+        return (get_namespace(e.tag), [(get_namespace(k), local_name(k)) for k in e.attrib], [conv(c) for c in e], True,
+                local_name(e.tag))
     return conv(ET.fromstring(xml))
 
 
